@@ -141,6 +141,79 @@ let wire_run (cap : int) (chunks : string) (ops : string list) : string =
   | None -> "FUEL"
   | Some (rs, _) -> String.concat " " (List.map show_rres rs)
 
+(* ---------- JSON value descriptions (see harness/vt/values.go) ---------- *)
+let parse_value_desc (s : string) : pval =
+  let p = ref 0 in
+  let len = String.length s in
+  let peek () = if !p < len then s.[!p] else '\000' in
+  let adv () = incr p in
+  let expect c = if peek () = c then adv () else failwith (Printf.sprintf "value desc: expected %c at %d in %s" c !p s) in
+  let is_hex c = (c >= '0' && c <= '9') || (c >= 'a' && c <= 'f') in
+  let hexrun () =
+    let st = !p in
+    while is_hex (peek ()) do adv () done;
+    let h = String.sub s st (!p - st) in
+    if h = "" then [] else bytes_of_hex h in
+  let rec value () : jvalue =
+    let c = peek () in
+    adv ();
+    match c with
+    | 'N' -> JNull | 'T' -> JBool true | 'F' -> JBool false
+    | 'D' -> let h = hexrun () in expect ';'; JNum h
+    | 'S' -> let h = hexrun () in expect ';'; JStr h
+    | '[' ->
+      if peek () = ']' then (adv (); JArr [])
+      else begin
+        let l = ref [] in
+        let continue = ref true in
+        while !continue do
+          l := value () :: !l;
+          if peek () = ',' then adv () else (expect ']'; continue := false)
+        done;
+        JArr (List.rev !l)
+      end
+    | '{' | 'M' ->
+      if c = 'M' then expect '{';
+      let l = ref [] in
+      if peek () = '}' then adv ()
+      else begin
+        let continue = ref true in
+        while !continue do
+          let k = hexrun () in
+          expect ':';
+          let v = value () in
+          l := (k, v) :: !l;
+          if peek () = ',' then adv () else (expect '}'; continue := false)
+        done
+      end;
+      let m = List.rev !l in
+      (* a Go map: duplicate keys collapse (last wins), members are emitted in sorted key order *)
+      if c = 'M' then begin
+        let dedup = List.fold_left (fun acc (k, v) -> (k, v) :: List.filter (fun (k', _) -> k' <> k) acc) [] m in
+        JObj (sort_members (List.rev dedup))
+      end else JObj m
+    | _ -> failwith ("value desc: bad tag in " ^ s) in
+  if s = "-" || s = "N" then PNone   (* a nil interface value *)
+  else if peek () = 'R' then begin
+    adv ();
+    let h = hexrun () in
+    expect ';';
+    PRaw h
+  end else begin
+    let v = value () in
+    if !p <> len then failwith "value desc: trailing text";
+    PJson v
+  end
+
+let schema_of = function
+  | "call" -> call_schema | "reply" -> reply_schema | "iface" -> iface_schema
+  | "info" -> info_schema | "descr" -> descr_schema | "address" -> address_schema
+  | "method" -> [(s_method, KString)] | "parameter" -> [(s_parameter, KString)]
+  | "resolver-info" -> resolver_info_schema
+  | x -> failwith ("unknown schema " ^ x)
+
+let tf b = if b then "T" else "F"
+
 let split_ws (l : string) : string list =
   List.filter (fun x -> x <> "") (String.split_on_char ' ' l)
 
@@ -156,6 +229,27 @@ let handle (cmd : string) (line : string) : string =
        let (st, wf) = idl_oracle input d in
        Printf.sprintf "strip=%d wf=%d" (if st then 1 else 0) (if wf then 1 else 0)
      with Irregular m -> "IRREGULAR " ^ m)
+  | "json-enc", [d] ->
+    (match parse_value_desc d with
+     | PJson v -> (match marshal_value v with Some b -> hex_of_bytes b | None -> "ERR")
+     | PRaw r -> (match compact_raw r with Some b -> hex_of_bytes b | None -> "ERR")
+     | PNone -> hex_of_bytes lit_null
+     | _ -> failwith "json-enc")
+  | "json-parse", [h] -> string_of_bytes (json_parse_case (bytes_of_hex h))
+  | "json-valid", [h] -> if valid (bytes_of_hex h) then "1" else "0"
+  | "json-compact", [h] -> string_of_bytes (json_compact_case (bytes_of_hex h))
+  | "json-struct", [sch; h] -> string_of_bytes (json_struct_case (schema_of sch) (bytes_of_hex h))
+  | "call-decode", [h] ->
+    (match decode_call (bytes_of_hex h) with
+     | None -> "ERR"
+     | Some c ->
+       String.concat " " ["S" ^ hex_of_bytes c.c_method;
+                          (match c.c_params with None -> "N" | Some r -> "R" ^ hex_of_bytes r);
+                          tf c.c_more; tf c.c_oneway; tf c.c_upgrade])
+  | "reply-enc", [d; cont; e] ->
+    (match enc_params (parse_value_desc d) with
+     | None -> "ERR"
+     | Some ps -> hex_of_bytes (encode_reply ps (cont = "1") (bytes_of_hex e)))
   | "wire-run", cap :: chunks :: ops -> wire_run (int_of_string cap) chunks ops
   | _ -> failwith ("bad case for " ^ cmd ^ ": " ^ line)
 
